@@ -716,6 +716,12 @@ def _deterministic_polymer(rnd, max_units=40):
     return "C{[>]" + u.format("[<]", "[>]") + "[<]}|gauss(%r, 0)|C" % round(target, 4), {"arch:sys_deterministic_chain"}
 
 
+def _pct(rnd, p):
+    if p == 0:
+        return rnd.choice(["0", "0.0", "0.", "0e0"])
+    return repr(p)
+
+
 def gen_system(rnd, cfg=None, deterministic_mass=False, min_components=1):
     """(text, tags, system_molweight or None, approx mean masses)."""
     cfg = cfg or {}
@@ -742,8 +748,12 @@ def gen_system(rnd, cfg=None, deterministic_mass=False, min_components=1):
     sizes = [approx(t) for t, _ in comps]
     members = rnd.choice([0.4, 2, 4, 8, 15, 30])  # 0.4: the very first member already exceeds the system mass
     total = max(sizes) * members
-    form = rnd.choice(["abs", "abs", "pct", "sysarg"]) if n > 1 else rnd.choice(["abs", "abs", "sysarg"])
+    form = rnd.choice(["abs", "abs", "pct", "sysarg", "unspecified_last"]) if n > 1 else rnd.choice(["abs", "abs", "sysarg"])
     raw = [rnd.choice([0.05, 1, 1, 2, 5, 9, 20]) for _ in range(n)]
+    if n >= 3 and form in ("pct", "sysarg", "unspecified_last") and rnd.random() < 0.3:
+        # a component declared with exactly 0 % (valid: it is simply never generated)
+        raw[rnd.randrange(n - 1)] = 0.0
+        tags.add("mix:zero_percent")
     fr = [r / sum(raw) for r in raw]
     text = ""
     sysw = None
@@ -758,12 +768,26 @@ def gen_system(rnd, cfg=None, deterministic_mass=False, min_components=1):
         pcts[k_abs] = round(100 - sum(p for i, p in enumerate(pcts) if i != k_abs), 1)
         if pcts[k_abs] <= 0:
             return gen_system(rnd, cfg, deterministic_mass, min_components)
+        if pcts[k_abs] < 0.05 and "mix:zero_percent" in tags:
+            return gen_system(rnd, cfg, deterministic_mass, min_components)
         for i, (t, _) in enumerate(comps):
             if i == k_abs:
                 text += t + ".|%s|" % _f_mix(rnd, round(total * pcts[i] / 100.0, 2))
             else:
-                text += t + ".|%s%%|" % repr(pcts[i])
+                text += t + ".|%s%%|" % _pct(rnd, pcts[i])
         tags.add("mix:percent")
+    elif form == "unspecified_last":
+        # every component but the last carries a percentage, the last one nothing: its share is the remainder, the caller
+        # supplies the system mass
+        pcts = [round(100 * f, 1) for f in fr]
+        pcts[-1] = round(100 - sum(pcts[:-1]), 1)
+        if pcts[-1] <= 0:
+            return gen_system(rnd, cfg, deterministic_mass, min_components)
+        for (t, _), p_ in zip(comps[:-1], pcts[:-1]):
+            text += t + ".|%s%%|" % _pct(rnd, p_)
+        text += comps[-1][0]
+        sysw = round(total, 1)
+        tags.add("mix:unspecified_last")
     else:
         if n == 1:
             text = comps[0][0] + ".|100%|"
@@ -773,7 +797,7 @@ def gen_system(rnd, cfg=None, deterministic_mass=False, min_components=1):
             if pcts[-1] <= 0:
                 return gen_system(rnd, cfg, deterministic_mass, min_components)
             for (t, _), p in zip(comps, pcts):
-                text += t + ".|%s%%|" % repr(p)
+                text += t + ".|%s%%|" % _pct(rnd, p)
         sysw = round(total, 1)
         tags.add("mix:system_mass_argument")
     return text, tags, sysw
